@@ -40,7 +40,8 @@ class Recorder:
     """records, for every call `pattern.get_mapping(mol, ...)` on a pattern of the three rule collections, the molecule
     as it was at that moment and the mappings the generator yielded (lazily, exactly as the engine consumed them)"""
 
-    def __init__(self):
+    def __init__(self, observe_too=False):
+        self.observe_too = observe_too
         from chython.containers import QueryContainer
         from chython.algorithms.standardize import molecule as engine
         self.pid = {}
@@ -59,13 +60,18 @@ class Recorder:
                 yield from rec.orig(self, other, **kw)
                 return
             if rec.dirty or rec.snap is None:
-                rec.snap = coqmol.mol_term(other)
+                if rec.observe_too:
+                    rec.snap = ''
+                    rec.obs = observe(other)
+                    rec.obs['h1ok'] = valence_valid(other) or bool(rec.obs['invalid'])
+                else:
+                    rec.snap = coqmol.mol_term(other)
                 rec.dirty = False
             c, i = key
             stage = {1: 2, 2: 3}.get(c, 1 if (0, i) in rec.seen_double else 0)
             if c == 0:
                 rec.seen_double.add((0, i))
-            entry = {'c': c, 'ridx': i, 'stage': stage if rec.stage is None else rec.stage, 'g0': rec.snap, 'maps': []}
+            entry = {'c': c, 'ridx': i, 'stage': stage if rec.stage is None else rec.stage, 'g0': rec.snap, 'maps': [], 'obs': rec.obs}
             rec.rec.append(entry)
             for mp in rec.orig(self, other, **kw):
                 entry['maps'].append(list(mp.items()))
@@ -81,7 +87,7 @@ class Recorder:
         self.qc.get_mapping = self.orig
 
     def run(self, fn, stage=None):
-        self.rec, self.snap, self.dirty, self.seen_double, self.stage = [], None, True, set(), stage
+        self.rec, self.snap, self.dirty, self.seen_double, self.stage, self.obs = [], None, True, set(), stage, None
         try:
             out = fn()
         finally:
@@ -504,6 +510,97 @@ def fmt_counter(c):
     return {str(k): v for k, v in sorted(c.items(), key=repr)}
 
 
+def labelled(m):
+    lab = {n: (a.atomic_number, a.isotope, a.charge, a.is_radical, a.implicit_hydrogens) for n, a in m.atoms()}
+    adj = {n: {k: int(bd) for k, bd in nb.items()} for n, nb in m._bonds.items()}
+    return lab, adj
+
+
+def isomorphic(a, b, budget=200000):
+    """labelled-graph isomorphism (element, isotope, charge, radical, hydrogens; bond orders; stereo ignored), written
+    independently of chython: colour refinement + backtracking.  True / False / None (budget exhausted)"""
+    la, aa = labelled(a)
+    lb, ab = labelled(b)
+    if len(la) != len(lb) or collections.Counter(la.values()) != collections.Counter(lb.values()):
+        return False
+    ca, cb = dict(la), dict(lb)
+    for _ in range(len(la)):
+        ids = {}
+        na = {n: ids.setdefault((ca[n], tuple(sorted((o, ca[k]) for k, o in aa[n].items()))), len(ids)) for n in aa}
+        nb = {n: ids.setdefault((cb[n], tuple(sorted((o, cb[k]) for k, o in ab[n].items()))), len(ids)) for n in ab}
+        stable = len(set(na.values())) == len(set(ca.values())) and len(set(nb.values())) == len(set(cb.values()))
+        ca, cb = na, nb
+        if collections.Counter(ca.values()) != collections.Counter(cb.values()):
+            return False
+        if stable:
+            break
+    by_colour = collections.defaultdict(list)
+    for n, c in cb.items():
+        by_colour[c].append(n)
+    # order: BFS so that every atom but component roots has an assigned neighbour; small colour classes first
+    size = collections.Counter(ca.values())
+    order, seen = [], set()
+    for root in sorted(aa, key=lambda n: (size[ca[n]], n)):
+        if root in seen:
+            continue
+        queue = [root]
+        seen.add(root)
+        while queue:
+            n = queue.pop(0)
+            order.append(n)
+            for k in sorted(aa[n], key=lambda k: (size[ca[k]], k)):
+                if k not in seen:
+                    seen.add(k)
+                    queue.append(k)
+    steps = [0]
+    fwd, used = {}, set()
+
+    def go(i):
+        if i == len(order):
+            return True
+        steps[0] += 1
+        if steps[0] > budget:
+            raise TimeoutError
+        n = order[i]
+        assigned = [(k, o) for k, o in aa[n].items() if k in fwd]
+        if assigned:
+            k0, o0 = assigned[0]
+            cands = [x for x, o in ab[fwd[k0]].items() if o == o0]
+        else:
+            cands = by_colour[ca[n]]
+        for x in cands:
+            if x in used or cb[x] != ca[n] or len(ab[x]) != len(aa[n]):
+                continue
+            if all(ab[x].get(fwd[k]) == o for k, o in assigned):
+                fwd[n] = x
+                used.add(x)
+                if go(i + 1):
+                    return True
+                del fwd[n]
+                used.discard(x)
+        return False
+    import sys
+    sys.setrecursionlimit(max(sys.getrecursionlimit(), len(order) + 1000))
+    try:
+        return go(0)
+    except TimeoutError:
+        return None
+
+
+def stereo_count(m):
+    return sum(1 for _, a in m.atoms() if a.stereo is not None) + sum(1 for *_, bd in m.bonds() if bd.stereo is not None)
+
+
+def valence_valid(m):
+    """every hydrogen count is known and no hydrogen atom has more than one bond (chython gives every H atom the count 0)"""
+    for n, a in m.atoms():
+        if a.implicit_hydrogens is None:
+            return False
+        if a.atomic_number == 1 and len(m._bonds[n]) > 1:
+            return False
+    return True
+
+
 class Limited:
     """at most `limit` counterexamples per kind reach the replay directory (one defect shows up on many molecules)"""
 
@@ -511,19 +608,51 @@ class Limited:
         self.ck, self.limit, self.seen = ck, limit, collections.Counter()
 
     def counterexample(self, kind, key, *a, **kw):
-        self.seen[kind] += 1
         self.ck.count('search:FAIL ' + kind)
+        if self.ck.match_known(key) is not None:        # recorded findings never use up the budget of new ones
+            self.ck.counterexample(key, *a, **kw)
+            return
+        self.seen[kind] += 1
         if self.seen[kind] <= self.limit:
             self.ck.counterexample(key, *a, **kw)
 
 
-def check_op(ck, lim, name, smi, make, valid_only_checks=True, renumber=True, fixed_corpus=False):
+LOGGED = {'standardize': lambda m: m.standardize(logging=True),
+          'standardize(fix_tautomers=False)': lambda m: m.standardize(logging=True, fix_tautomers=False),
+          'canonicalize': lambda m: m.canonicalize(logging=True),
+          'canonicalize(fix_tautomers=False)': lambda m: m.canonicalize(logging=True, fix_tautomers=False)}
+
+
+def rule_steps(make, ft):
+    """which rules change net charge / hydrogen count when standardize() runs on this molecule: [(pattern, dq, dh)]"""
+    m = make()
+    out = []
+    with Recorder(observe_too=True) as R:
+        try:
+            _, rec = R.run(lambda: m.standardize(fix_tautomers=ft, _fix_stereo=False))
+        except Exception:
+            return out
+    final = observe(m)
+    for k, e in enumerate(rec):
+        if not e['maps']:
+            continue
+        o0 = e['obs']
+        o1 = rec[k + 1]['obs'] if k + 1 < len(rec) else final
+        if o0['invalid'] or not o0['h1ok']:
+            break        # from here on the molecule is not valence-valid any more: outside the claim
+        if (o1['charge'], o1['h']) != (o0['charge'], o0['h']):
+            out.append((str(R.colls[e['c']][e['ridx']][0]), o1['charge'] - o0['charge'], o1['h'] - o0['h']))
+    return out
+
+
+def check_op(ck, lim, name, smi, make, renumber=True, fixed_corpus=False):
     """all oracles of one operation on one molecule; make() builds a fresh input molecule"""
     op = OPS[name]
     code = OP_CODE[name]
+    family = name.split('(')[0]
     m = make()
     before = observe(m)
-    valid = not before['invalid']
+    valid = valence_valid(m)
     build = getattr(make, 'code', f'm = smiles({smi!r})')
     rp = f'from chython import smiles\n{build}\nprint(str(m)); r = {code}; print(r, str(m))\nr = {code}; print(r, str(m))'
     inp = {'smiles': smi, 'built_by': build, 'operation': code}
@@ -531,13 +660,17 @@ def check_op(ck, lim, name, smi, make, valid_only_checks=True, renumber=True, fi
         op(m)
     except Exception as e:
         if valid:
-            lim.counterexample(f'raises {name}', f'raises:{name}:{type(e).__name__}:{smi}', f'{code} raises {type(e).__name__} on valence-valid input',
+            key = f'raises:{name}:{type(e).__name__}:{smi}'
+            if family == 'canonicalize' and type(e).__name__ == 'ValenceError' and 'Hydrogen atom' in str(e) and \
+                    any(a.atomic_number == 1 and len(m._bonds[n]) > 1 and any(int(x) == 8 for x in m._bonds[n].values()) for n, a in m.atoms()):
+                key = 'canonicalize-raises:hydrogen-with-coordinate-bond'
+            lim.counterexample(f'raises {name}', key, f'{code} raises {type(e).__name__} on valence-valid input',
                                inp, f'{type(e).__name__}: {e}', 'no exception', 'the operation must not fail on valence-valid input', replay_py=rp)
         else:
             ck.count(f'search:{name} raises on valence-INVALID input (outside the claim)')
         return None
     after = observe(m)
-    ck.case(('op', name, smi, build), nontrivial=str(make()) != str(m) if name not in ('explicify_hydrogens', 'implicify_hydrogens') else before['h'] > 0)
+    ck.case(('op', name, smi, build), nontrivial=state(make()) != state(m))
     if after['heavy'] != before['heavy'] or after['heavy_h_isotopes'] != before['heavy_h_isotopes']:
         lim.counterexample(f'heavy atoms {name}', f'heavy:{name}:{smi}', f'{code} changes the heavy-atom multiset', inp,
                            fmt_counter(after['heavy']), fmt_counter(before['heavy']), 'multiset of (atomic number, isotope) over non-hydrogen atoms', replay_py=rp)
@@ -551,44 +684,97 @@ def check_op(ck, lim, name, smi, make, valid_only_checks=True, renumber=True, fi
                 lim.counterexample(f'protons {name}', f'protons:{name}:{smi}', f'{code}: net charge and hydrogen count change by different amounts', inp,
                                    {'charge change': dq, 'hydrogen change': dh}, 'equal', 'sum of charges / implicit + explicit hydrogens', replay_py=rp)
         elif dq or dh:
-            lim.counterexample(f'charge or H {name}', f'composition:{name}:{smi}', f'{code} changes net charge or hydrogen count of a valence-valid molecule', inp,
-                               {'charge': after['charge'], 'hydrogens': after['h'], 'result': str(m)}, {'charge': before['charge'], 'hydrogens': before['h']},
-                               'sum of charges / implicit + explicit hydrogens', replay_py=rp)
-        if after['radicals'] % 2 != before['radicals'] % 2:
+            culprits = rule_steps(make, 'False' not in name) if family in ('standardize', 'canonicalize') else []
+            obs = {'charge': after['charge'], 'hydrogens': after['h'], 'result': str(m)}
+            exp = {'charge': before['charge'], 'hydrogens': before['h']}
+            if culprits:
+                for pat, q, h in culprits:
+                    lim.counterexample(f'charge or H {name}', f'rule-changes-composition:{pat}',
+                                       f'{code}: the rule {pat} changes net charge by {q} and hydrogen count by {h} on a valence-valid molecule',
+                                       inp, obs, exp, 'sum of charges / implicit + explicit hydrogens before and after the rule', replay_py=rp)
+            else:
+                lim.counterexample(f'charge or H {name}', f'composition:{name}:{smi}', f'{code} changes net charge or hydrogen count of a valence-valid molecule', inp,
+                                   obs, exp, 'sum of charges / implicit + explicit hydrogens', replay_py=rp)
+        if after['radicals'] % 2 != before['radicals'] % 2 and not (dq or dh):
             lim.counterexample(f'radical parity {name}', f'radicals:{name}:{smi}', f'{code} changes the parity of the radical count', inp,
                                after['radicals'], before['radicals'], 'number of radical atoms mod 2', replay_py=rp)
-    # idempotence: a second application changes nothing (strings compared; the return value is not a change indicator)
-    s1, st1 = str(m), state(m)
+    # idempotence: a second application changes nothing (molecules compared; the return value is not a change indicator)
+    first = m.copy()
     try:
-        op(m)
+        log2 = LOGGED.get(name, op)(m)
     except Exception as e:
         if valid:
             lim.counterexample(f'second application raises {name}', f'raises2:{name}:{type(e).__name__}:{smi}', f'second {code} raises {type(e).__name__}', inp,
                                f'{type(e).__name__}: {e}', 'no exception', 'idempotence', replay_py=rp)
         return None
-    s2 = str(m)
-    if valid or not after['invalid']:
-        if s2 != s1:
-            lim.counterexample(f'idempotence {name}', f'idempotent:{name}:{smi}', f'{code} is not idempotent: the second application changes the molecule', inp,
-                               s2, s1, 'canonical string after the first and the second application', replay_py=rp)
-        elif state(m) != st1:
-            ck.count(f'search:{name}: second application permutes an equivalent spelling (same canonical string)')
-    elif s2 != s1:
-        ck.count(f'search:{name} not idempotent on valence-INVALID input (outside the claim)')
+    if valid or valence_valid(first):
+        same = state(m) == state(first) or isomorphic(first, m)
+        if same is None:
+            ck.count('search:isomorphism undecided (budget)')
+        elif not same:
+            key = f'idempotent:{name}:{smi}'
+            if name in LOGGED:
+                # is it fix_resonance (the first step of standardize) that does not accept standardize's own output?
+                g = first.copy()
+                try:
+                    g.kekule()
+                    h = g.copy()
+                    g.fix_resonance()
+                    if state(g) != state(h) and not isomorphic(g, h):
+                        key = 'not-idempotent:fix_resonance-changes-the-output-of-standardize'
+                except Exception:
+                    pass
+            elif name.startswith('neutralize('):
+                key = f'not-idempotent:{name}'
+            lim.counterexample(f'idempotence {name}', key, f'{code} is not idempotent: the second application changes the molecule', inp,
+                               str(m), str(first), 'labelled-graph isomorphism of the results of the first and the second application', replay_py=rp)
+        elif state(m) != state(first):
+            ck.count(f'search:{name}: second application moves to a symmetry-equivalent spelling')
     # numbering independence
-    if renumber and valid and (name not in TAUTOMERIC or fixed_corpus):
-        r = corpus.renumber(make(), random.Random(f'{ck.seed}:{smi}:{name}'))
+    if renumber and valid and (family not in TAUTOMERIC or 'False' in name or fixed_corpus):
+        src = make()
+        nums = list(src._atoms)
+        perm = nums[:]
+        random.Random(f'{ck.seed}:{smi}:{name}').shuffle(perm)
+        sigma = dict(zip(nums, perm))
+        r = src.copy()
+        r.remap(sigma)
         try:
             op(r)
-            sr = str(r)
         except Exception as e:
-            sr = f'{type(e).__name__}: {e}'
-        if sr != s1:
+            r = None
+            err = f'{type(e).__name__}: {e}'
+        ok = r is not None
+        if ok:
+            back = first.copy()
+            try:
+                back.remap(sigma)
+                exact = state(back) == state(r)
+            except Exception:
+                exact = False
+            ck.count('search:renumbering ' + ('commutes exactly' if exact else 'commutes up to isomorphism (checked)'))
+            ok = exact or isomorphic(first, r)
+            if ok and stereo_count(first) != stereo_count(r):
+                ok = False
+        if ok is None:
+            ck.count('search:isomorphism undecided (budget)')
+        elif not ok:
             key = f'renumber:{name}:{smi}'
-            lim.counterexample(f'numbering {name}', key, f'{code}: renumbering the input changes the result', inp, sr, s1,
-                               'canonical string of op(m) and of op(renumbered m)',
+            if family in ('fix_resonance', 'standardize', 'canonicalize'):
+                # is it the choice fix_resonance makes (set.pop()) among several anions that can discharge into one cation?
+                try:
+                    x, y = make(), make()
+                    y.remap(sigma)
+                    x.kekule(), y.kekule()
+                    x.fix_resonance(), y.fix_resonance()
+                    if isomorphic(x, y) is False:
+                        key = 'numbering-dependent:fix_resonance'
+                except Exception:
+                    pass
+            lim.counterexample(f'numbering {name}', key, f'{code}: renumbering the input changes the result', inp,
+                               str(r) if r is not None else err, str(first), 'labelled-graph isomorphism of op(m) and op(renumbered m), number of stereo labels',
                                replay_py=f'import random\nfrom chython import smiles\n{build}\nnums = list(m._atoms); perm = nums[:]; '
-                                         f'random.Random({ck.seed!r} and {f"{ck.seed}:{smi}:{name}"!r}).shuffle(perm)\n'
+                                         f'random.Random({f"{ck.seed}:{smi}:{name}"!r}).shuffle(perm)\n'
                                          f'r = m.copy(); r.remap(dict(zip(nums, perm)))\n{code}; {code.replace("m.", "r.")}\nprint(str(m)); print(str(r))')
     return m
 
@@ -624,6 +810,8 @@ def search(ck, rng):
         pool.append((tag, s, None))
     for s in RES_SMILES + H_SMILES[:20] + SALTS:
         pool.append(('hand', s, None))
+    for _, want in test_groups_data():
+        pool.append(('documented result', want, None))      # the documented canonical spellings must be fixed points
     groups = doc_groups()
     for tag, s, k in pool:
         # hydrogen counts of aromatic hetero-atoms are unknown right after parsing: inputs are Kekule forms or re-aromatised ones
@@ -644,12 +832,12 @@ def search(ck, rng):
             continue
         if m0 is None:
             continue
-        valid = not any(a.implicit_hydrogens is None for _, a in m0.atoms())
+        valid = valence_valid(m0)
         ck.count(f'search:{tag} ' + ('valence-valid' if valid else 'valence-INVALID (heavy atoms only)'))
         for name in OPS:
             if quick and tag in ('corpus', 'decorated') and name in ('standardize(fix_tautomers=False)', 'neutralize(keep_charge=False)') and hash_pick(s, name) % 2:
                 continue
-            res = check_op(ck, lim, name, s, make, renumber=tag != 'doc' or valid, fixed_corpus=tag == 'corpus')
+            check_op(ck, lim, name, s, make, fixed_corpus=tag == 'corpus')
         # explicify and implicify are mutually inverse
         if valid:
             inverse_pair(ck, lim, s, make)
@@ -740,10 +928,8 @@ def check_tautomers(ck, lim, smi, tag):
     try:
         ts = list(m.enumerate_tautomers(limit=40))
     except Exception as e:
-        tb = traceback.extract_tb(e.__traceback__)
-        inner = {f.name for f in tb[-3:]}
-        stale = isinstance(e, KeyError) and inner & {'_translate_tetrahedron_sign', '_translate_cis_trans_sign', '_translate_allene_sign'}
-        if stale:
+        stale = isinstance(e, KeyError) and stereo_count(m) > 0
+        if stale:       # the same molecule without its stereo labels enumerates without error
             c = smiles(smi)
             c.clean_stereo()
             try:
@@ -774,3 +960,110 @@ def check_tautomers(ck, lim, smi, tag):
                                'canonical strings', replay_py=rp)
             break
         seen[s] = True
+
+
+# ---------------------------------------------------------------------------------------------
+
+
+def directed_search(ck, rng, metas):
+    """a correspondence disagreement is not a violation by itself: look for a concrete failing input of the REAL code on and
+    around the disagreeing inputs (property-level oracles only)"""
+    from chython import smiles
+    lim = Limited(ck)
+    tried = 0
+    for mt in metas[:40]:
+        s = mt.get('mol')
+        if not s or mt.get('tag') == 'decorated':
+            continue
+        for thiele in (False, True):
+            def make(s=s, thiele=thiele):
+                return prepared(smiles(s), thiele)
+            make.code = f'm = smiles({s!r}); m.kekule()' + ('; m.thiele()' if thiele else '')
+            try:
+                if make() is None:
+                    continue
+            except Exception:
+                continue
+            for name in OPS:
+                try:
+                    check_op(ck, lim, name, s, make)
+                    tried += 1
+                except Exception:
+                    pass
+            try:
+                if valence_valid(make()):
+                    inverse_pair(ck, lim, s, make)
+            except Exception:
+                pass
+    ck.extra['directed_search_cases'] = tried
+
+
+def run(ck):
+    import time
+    ck.trusted += ['translator tools/gen_stdrules.py (imports chython under the shim and dumps the live rule objects; source audit of the engine statements by Python ast)',
+                   'translator tools/gen_elements.py (element tables used by centre_invalid)',
+                   'correspondence runner harness/checks/C14.py + harness/coqcases.py + harness/coqmol.py (instrumented QueryContainer.get_mapping / '
+                   'Resonance.__find_delocalize_path)', 'Model.Valence (C04 model of calc_implicit / valence_rules) inside the correspondence glue coq/model/StandardizeTie.v',
+                   'CachedMethods shim harness/boot.py', 'CPython 3.12.1', 'the labelled-graph isomorphism test of harness/checks/C14.py (search only)']
+    ck.assumptions += ['PARTIAL by design: theorems cover the rule tables and the rule engine (atoms, elements, isotopes, adjacency, net charge); idempotence, numbering '
+                       'independence, neutralisation, tautomers, hydrogen counts are search only',
+                       'the substructure matcher is an INPUT of the model (what get_mapping yields); the theorems assume match_ok (distinct atoms, element / charge of every '
+                       'pattern atom, adjacency of pattern bonds), which the correspondence tests on every recorded mapping',
+                       'the Python fallback matcher is lazy (reads live atoms while the engine patches); the model takes the list of yielded mappings as given',
+                       'calc_implicit and valence_rules enter the model as Section variables; the correspondence instantiates them with the C04 model',
+                       'the path SEARCH of fix_resonance, thiele/kekule, standardize_charges (beyond the table obligation), neutralize and the tautomer generators are not modelled']
+    ck.extra['rule'] = ('correspondence: documented pairs of test_groups.py, hand-made functional groups / metal-organics / salts, every rule on its own minimal instantiation, '
+                        'corpus molecules and corpus molecules decorated with the functional-group spellings the tables mention (half of them renumbered at random); a case '
+                        'is non-trivial when at least one rule matched / a hydrogen was added or removed / a resonance path was applied. search: the same families as '
+                        'Kekule or re-aromatised valence-valid molecules, all ten operations; non-trivial when the operation changed the molecule')
+    rng = random.Random(ck.seed)
+    laps = {}
+    t0 = time.time()
+
+    def lap(name):
+        nonlocal t0
+        laps[name] = round(time.time() - t0, 1)
+        t0 = time.time()
+
+    proved = common.standard_proof_steps(ck, translators=['elements', 'stdrules'], extra_targets=('model/StandardizeTie.vo',))
+    lap('proof')
+    tied = True
+    disagreeing = []
+    if not os.path.exists(os.path.join(common.COQ, 'model', 'StandardizeTie.vo')):
+        ck.oblige('correspondence glue coq/model/StandardizeTie.v builds', False, 'correspondence', 'model/StandardizeTie.vo missing')
+        ck.unchecked('correspondence glue coq/model/StandardizeTie.v does not build', 'see the build log')
+        tied = False
+    else:
+        batches = [('c14_engine', corr_engine, 'correspondence: Standardize.__standardize / standardize() == Coq model on the recorded mappings (every matched rule as a '
+                    'step from the intermediate molecule, matcher specification match_ok on every mapping, whole passes, log, recalculated atoms)', 60),
+                   ('c14_hydrogens', corr_hydrogens, 'correspondence: explicify_hydrogens / implicify_hydrogens == Coq model (whole molecule incl. insertion order, exceptions)', 60),
+                   ('c14_resonance', corr_resonance, 'correspondence: fix_resonance == Coq application of the accepted paths + hydrogen recalculation', 60)]
+        for name, fn, what, shard in batches:
+            try:
+                cases, meta = fn(ck, rng)
+            except Exception:
+                tb = traceback.format_exc()
+                ck.oblige(what, False, 'correspondence', tb)
+                ck.unchecked(f'correspondence runner {name} crashed', tb)
+                tied = False
+                continue
+            ok, failing, log = run_corr(ck, name, cases, meta, what, shard=shard)
+            if not ok or failing:
+                tied = False
+                bad = [meta[i] for i in failing[:20]]
+                # which half of a failing step: the matcher specification or the patch?
+                specs = [meta[i]['spec'] for i in failing[:30] if 'spec' in meta[i]]
+                if specs:
+                    ok2, f2, _ = coqcases.run_cases(name + '_spec', IMPORTS, specs, extra=EXTRA, shard=60)
+                    ck.extra['failing_steps_where_match_ok_fails'] = len(f2) if ok2 else 'not evaluated'
+                disagreeing += bad
+                ck.unchecked(f'correspondence {name}: model and chython disagree', log[-1500:], [repr({k: v for k, v in m.items() if k != 'spec'}) for m in bad])
+            lap(name)
+    search(ck, rng)
+    lap('search')
+    if not proved or not tied:
+        directed_search(ck, rng, disagreeing)
+        lap('directed search')
+    ck.extra['proved'] = proved
+    ck.extra['tied'] = tied
+    ck.extra['laps_s'] = laps
